@@ -8,7 +8,7 @@ export CARGO_NET_OFFLINE=true RUST_BACKTRACE=0
 unset RUSTFLAGS
 cd "$REPO" || exit 2
 rm -f target/nextest/pb/junit.xml
-cargo nextest run --workspace --no-fail-fast --tool-config-file pb:/w/lib/nextest.toml --profile pb --test-threads 8 --offline > /tmp/baseline_off.log 2>&1
+cargo nextest run --workspace --no-fail-fast --tool-config-file pb:/w/lib/nextest.toml --profile pb --test-threads 8 --offline > "${BASELINE_LOG:-/tmp/baseline_off.log}" 2>&1
 python3 - "$REPO" <<'PY'
 import json, sys, xml.etree.ElementTree as ET
 repo = sys.argv[1]
